@@ -206,6 +206,26 @@ def theorem_assumptions(vfile):
     return rc == 0, res, o
 
 
+def run_coqchk(cfg, cone):
+    """Thorough tier: independent re-check of the compiled theorems (and everything they depend on)
+    with coqchk; cached per source-tree hash.  Returns (ok, summary_text)."""
+    mods = ["BBS." + f[:-2].replace("/", ".") for f in cfg["coqfiles"] if f.startswith("Props/")]
+    if not mods:
+        return True, "no Props module"
+    hv = tree_hash([os.path.join(COQ, f) for f in cone])
+    cache = os.path.join(OUT, "coqchk-%s.txt" % hv[:16])
+    if os.path.exists(cache):
+        txt = open(cache).read()
+    else:
+        rc, o = sh(["coqchk", "-silent", "-o", "-Q", ".", "BBS"] + mods, cwd=COQ, timeout=3000)
+        txt = "exit %d\n" % rc + o[-3000:]
+        open(cache, "w").write(txt)
+    ok = txt.startswith("exit 0")
+    m = re.search(r"\* Axioms:(.*?)\n\s*\n\* Constants", txt, re.S)
+    axioms = " ".join(m.group(1).split()) if m else "?"
+    return ok, "coqchk %s; axioms of all loaded libraries: %s" % ("ok" if ok else "FAILED", axioms)
+
+
 def count_qed(files):
     n = 0
     for f in files:
@@ -578,6 +598,12 @@ def main(argv):
         if not hok:
             corr_broken.append("harness does not build against the current tree: " + hout[-1200:])
         # copies so that parallel checks of other properties do not race on rebuilds
+    coqchk_note = None
+    if tier == "thorough" and not proof_broken:
+        with Lock():
+            cok, coqchk_note = run_coqchk(cfg, sorted(cone))
+        if not cok:
+            proof_broken.append("coqchk rejects the compiled development: " + coqchk_note[:400])
     obligations = count_qed(sorted(cone))
     discharged = obligations if not proof_broken else 0
     axioms_used = sorted(set(a for v in assumptions.values() for a in v))
@@ -679,6 +705,7 @@ def main(argv):
             ["Print Assumptions: " + (("%d property theorems, all closed under the global context" % len(thm_names)) if not axioms_used
                                       else "axioms used: " + "; ".join(axioms_used))],
             theorems=thm_names,
+            coqchk=coqchk_note or "not run in the quick tier",
             theorem_assumptions={k: (v if v else ["Closed under the global context"]) for k, v in assumptions.items()},
             proof_status="all proofs re-checked" if not proof_broken else "BROKEN: " + "; ".join(proof_broken),
             evaluations=len(allres) + searched,
